@@ -23,9 +23,20 @@ type vfLis struct {
 	queue  chan net.Conn
 	closed chan struct{}
 	isClosed bool
+	tempErrs int // transient accept failures still to deliver (EMFILE-like: Temporary, not Timeout)
 }
 
+type vfTempErr struct{}
+
+func (vfTempErr) Error() string   { return "accept: too many open files" }
+func (vfTempErr) Temporary() bool { return true }
+func (vfTempErr) Timeout() bool   { return false }
+
 func (l *vfLis) Accept() (net.Conn, error) {
+	if l.tempErrs > 0 && !l.isClosed {
+		l.tempErrs--
+		return nil, vfTempErr{}
+	}
 	select {
 	case c := <-l.queue:
 		return c, nil
@@ -92,6 +103,9 @@ func VfC09_ListenerStop() {
 		c := &vfCliConn{closed: make(chan struct{})}
 		conns = append(conns, c)
 		lis.queue <- c
+	}
+	if nd.Bool("transient-accept-error") {
+		lis.tempErrs = 1
 	}
 	bindFails := nd.Concrete(nd.IntRange("bind-failures", 0, 1))
 	attempts := 0
@@ -193,4 +207,41 @@ func VfC09_LimitConcurrent() {
 	nd.Assert(ok[0] != ok[1], "of two simultaneous arrivals at a listener with room for one, exactly one is admitted")
 	nd.Assert(len(l.conns) == 1, "the number of served connections never exceeds the limit")
 	nd.Cover("raced")
+}
+
+// VfC09_ServeAfterTransientError: a transient accept failure (file-descriptor exhaustion) does
+// not end the service: connections arriving afterwards, under the limit, are still served; and a
+// connection refused by the limit leaves the statistics consistent (C20).
+func VfC09_ServeAfterTransientError() {
+	nd.ConcreteClock(true)
+	lis := &vfLis{queue: make(chan net.Conn, 4), closed: make(chan struct{}), tempErrs: nd.Concrete(nd.IntRange("transient-errors", 0, 2))}
+	oldListen := defaultListenFunc
+	defer func() { defaultListenFunc = oldListen }()
+	defaultListenFunc = func(proto, addr string) (net.Listener, error) { return lis, nil }
+	handled := 0
+	l := vfNewListener(1, func(conn net.Conn) {
+		handled++
+		buf := make([]byte, 1)
+		conn.Read(buf)
+	})
+	c1 := &vfCliConn{closed: make(chan struct{})}
+	c2 := &vfCliConn{closed: make(chan struct{})}
+	lis.queue <- c1
+	go l.Serve()
+	nd.Quiesce()
+	nd.Assert(handled == 1 && !c1.isClosed, "a connection under the limit is served, also after transient accept failures")
+	lis.queue <- c2 // over the limit of 1
+	nd.Quiesce()
+	nd.Assert(c2.isClosed && handled == 1, "a connection over the limit is closed, not served")
+	d := l.stats
+	nd.Assert(d.CxActive.Value() == 1 && d.CxTotal.Value() == 1 && d.CxDestroyTotal.Value() == 0 && d.CxRestricted.Value() == 1,
+		"a connection refused by the limit is counted as restricted only (active, total and destroyed unaffected)")
+	c1.Close()
+	nd.Quiesce()
+	nd.Assert(d.CxActive.Value() == 0 && d.CxTotal.Value() == d.CxDestroyTotal.Value(), "gauges return to zero when the served connection ends")
+	stopped := false
+	go func() { l.Stop(); stopped = true }()
+	nd.Quiesce()
+	nd.Assert(stopped, "Stop returns")
+	nd.Cover("served-and-stopped")
 }
